@@ -173,6 +173,7 @@ func cfbLegToy(env *vk.Env, cfg string, full bool) bool {
 		wg.Add(1)
 		go func(w int) {
 			defer wg.Done()
+			defer guard("c10")
 			rng := newRand(env.Seed, fmt.Sprint("cfb-modes", cfg, w))
 			for vi := w; vi < len(vecs); vi += nw {
 				v := vecs[vi]
@@ -706,6 +707,7 @@ func runC10(env *vk.Env) {
 			wg.Add(1)
 			go func(p int) {
 				defer wg.Done()
+				defer guard("c10")
 				var ss []cfbSession
 				for i := 0; i < per; i++ {
 					ss = append(ss, cfbSession{ID: p*per + i, Seed: env.Seed})
@@ -720,6 +722,7 @@ func runC10(env *vk.Env) {
 			wg.Add(1)
 			go func(p int) {
 				defer wg.Done()
+				defer guard("c10")
 				var ss []cfbSession
 				for i := 0; i < per; i++ {
 					ss = append(ss, cfbSession{ID: p*per + i, Seed: env.Seed})
